@@ -30,6 +30,8 @@ type engine struct {
 	loadSecs   float64
 	repo       string
 	allFuncs   map[string]*ssa.Function
+	localsSnap map[string][]localVar
+	snapshotFile string
 }
 
 func loadEngine(repo, theoryDir string) (*engine, error) {
@@ -85,6 +87,7 @@ func loadEngine(repo, theoryDir string) (*engine, error) {
 	if err != nil {
 		return nil, err
 	}
+	e.snapshotFile = filepath.Join(theoryDir, "locals.snapshot")
 	e.db, err = loadContracts(files)
 	if err != nil {
 		return nil, err
@@ -150,6 +153,32 @@ func main() {
 		cmdVerify(os.Args[2:])
 	case "check":
 		cmdCheck(os.Args[2:])
+	case "snapshot-locals":
+		e, err := loadEngine("/repo", "/verif/theory")
+		if err != nil {
+			fmt.Fprintln(os.Stderr, err)
+			os.Exit(2)
+		}
+		var names []string
+		for n, b := range e.db.funcs {
+			if b.kind == "func" {
+				names = append(names, baseFuncName(n))
+			}
+		}
+		sort.Strings(names)
+		seen := map[string]bool{}
+		for _, n := range names {
+			fn := e.funcByName[n]
+			if fn == nil || seen[n] {
+				continue
+			}
+			seen[n] = true
+			var fs []string
+			for _, v := range orderedLocals(fn) {
+				fs = append(fs, v.name+":"+v.typ)
+			}
+			fmt.Printf("%s\t%s\n", n, strings.Join(fs, "|||"))
+		}
 	case "uncovered":
 		e, err := loadEngine("/repo", "/verif/theory")
 		if err != nil {
